@@ -5,7 +5,11 @@ contract = the delivered lines are a function of the concatenated byte stream), 
 Conformance on the real ASan/UBSan daemon (vlib/bytesrun.py), judged by TLC (spec/ReadLineTrace.tla):
   (a) behaviours of the daemon model with junk lines, rendered to one byte stream and delivered line by line, in one
       write, in 2-chunk and k-chunk splits, byte by byte, and cut off at a byte (peer death), each compared with
-      the clean line-at-a-time run of the same history without junk (two REAL runs);
+      the clean line-at-a-time run of the same history without junk (two REAL runs); junk lines are also GLUED in front
+      of well-formed lines (no barrier line in between: same read() chunk, same call of iauth_read()), systematically
+      every junk form x every line kind sent with its minimum number of parameters (adjacency family); and chunks
+      of exactly k * 4096 bytes (the daemon's read size) ending in a barrier line are written with the input kept
+      OPEN: the barrier's answer must come without further input (prompt deliveries, ReadLine!NoLineWaiting);
   (b) byte-level cases: all short byte strings over a 12-symbol alphabet and mutations of valid lines as subject,
       followed by probes (the addressed client, then a fresh well-formed client)."""
 import json
@@ -94,11 +98,63 @@ def splice_junk(ctx, events, svcs, density, huge=False):
     return items
 
 
+def junk_context(items):
+    """Per item: (client id, its routing tag) a junk line written in front of that item should talk about."""
+    out = []
+    serial, cur, last = 0, {}, 5
+    for it in items:
+        out.append((last, "%x_%x" % (last, cur.get(last, 0))))
+        e = it["ev"]
+        if e is not None:
+            if e["e"] == "C":
+                serial += 1
+                cur[e["id"]] = serial
+            if "id" in e:
+                last = e["id"]
+    return out
+
+
+PAD_STYLES = ["lines", "late", "long", "blank", "crlf"]
+
+
+def glue_variants(ctx, items, n):
+    """n deliveries with junk lines glued in front of randomly chosen lines of the history (one write / a write per line)."""
+    rng = ctx.rng
+    jc = junk_context(items)
+    var = []
+    for _ in range(n):
+        glue = []
+        for k, it in enumerate(items):
+            if rng.random() < (0.6 if (it["ev"] or {}).get("e") == "u0" else 0.25):
+                forms = [f for f in junk_forms(jc[k][0], jc[k][1], rng) if len(f) < 1500]
+                # every second one: a line for an unknown id that carries parameters
+                f = rng.choice([x for x in forms if x.startswith("%d " % (jc[k][0] + 1000))] if rng.random() < 0.5 else forms)
+                glue.append([k, f, ("\r" not in f) and rng.random() < 0.3])
+        if glue:
+            var.append({"mode": rng.choice(["whole", "lines", "lines", "sep"]), "glue": glue})
+    return var
+
+
+def prompt_variants(ctx, items, n, kmax=3):
+    """n deliveries with one chunk of exactly k * 4096 bytes (lines q..p and their barriers, padded with junk lines in front)
+    after which the input stays open until the last barrier is answered."""
+    rng = ctx.rng
+    var = []
+    for _ in range(n):
+        p = rng.randrange(len(items))
+        q = rng.randrange(max(0, p - 6), p + 1)
+        var.append({"mode": "prompt", "q": q, "p": p, "k": rng.choice([1, 1] + list(range(2, kmax + 1))),
+                    "style": rng.choice(PAD_STYLES), "uid": 1000 + junk_context(items)[q][0]})
+    return var
+
+
 def make_variants(ctx, items, exact_lines, budget):
     """Delivery variants for one history.  exact_lines: rendered lines (to place cuts); budget: dict of counts."""
     rng = ctx.rng
     lay, total = BR.layout(exact_lines)
     var = [{"mode": "lines"}, {"mode": "whole"}]
+    var += glue_variants(ctx, items, budget.get("nglue", 0))
+    var += prompt_variants(ctx, items, budget.get("nprompt", 0), budget.get("kmax", 3))
     if budget.get("bytes"):
         var.append({"mode": "bytes"})
     # 2-chunk splits
@@ -170,19 +226,26 @@ def history_jobs(ctx, behaviours, svcs, nhist, budget, density=0.35, huge=0):
 
 def describe(job, var, rec):
     items = job["items"]
-    mode = var["mode"] + ("+eof" if var.get("trunc") is not None else "")
+    mode = var["mode"] + ("+eof" if var.get("trunc") is not None else "") + ("+glue" if var.get("glue") else "")
+    if rec["e"] == "Prompt":
+        return mode, "no answer to the barrier after %s while the input stays open (chunk of k * 4096 bytes, padding %s)" % (
+            item_short(items[var["p"]]), var.get("style"))
     if rec["e"] == "S":
         k = rec["k"] - 1
     else:
         k = rec.get("want", 0)
     at = item_short(items[k]) if 0 <= k < len(items) else "end"
     prev = item_short(items[k - 1]) if 0 < k <= len(items) else "start"
+    g = [x[1] for x in (var.get("glue") or []) if x[0] == k]
+    if g:
+        prev = "glued junk %r" % (g[-1] if len(g[-1]) <= 40 else g[-1][:24] + "...(%d bytes)" % len(g[-1]))
     return mode, "%s after %s" % (at, prev)
 
 
 def report_stream_findings(ctx, findings, jobs, results, table):
     jobmap = {j["rid"]: j for j in jobs}
     seen = set()
+    nprompt = 0
     for f in findings:
         rid, vi = f["key"]
         job = jobmap[rid]
@@ -197,6 +260,11 @@ def report_stream_findings(ctx, findings, jobs, results, table):
             continue
         conj = "+".join(f["v"])
         sig = "%s: %s: %s" % (conj, mode, where)
+        if "prompt" in f["v"]:
+            # (every second opinion of a late answer costs the whole time-out)
+            if nprompt >= 2:
+                continue
+            nprompt += 1
         if sig in seen or len(seen) >= 6:
             continue
         seen.add(sig)
@@ -210,13 +278,13 @@ def report_stream_findings(ctx, findings, jobs, results, table):
             continue
         rec2 = BR.trace_line(f2[0]["trace"], f2[0]["l"])
         ctx.violation("stream delivered as %s: conjunct(s) %s fail at %s; observed %s"
-                      % (json.dumps({k: v for k, v in var.items() if k != "cuts" or len(v) < 12}), conj, where,
+                      % (json.dumps({k: v for k, v in var.items() if k not in ("cuts", "glue") or len(v) < 12}), conj, where,
                          json.dumps({k: rec2[k] for k in rec2 if k in ("k", "oc", "roc", "n", "rn", "exit", "san", "hang", "died", "done",
-                                                                    "want", "restc", "rrefc")})[:900]),
+                                                                    "want", "restc", "rrefc", "due", "got", "ms", "len")})[:900]),
                       conj, sig, {"kind": "stream", "table": table, "svcs": job["svcs"], "items": job["items"], "variant": var})
 
 
-def histories(ctx, name, table, nhist, budget, nstd, huge=0, barrage=False, **mc):
+def histories(ctx, name, table, nhist, budget, nstd, huge=0, barrage=False, adjacency=(), adj_full=False, **mc):
     svcs = R.SERVICE_TABLES[table]
     t0 = time.time()
     r, beh = R.model_check(ctx, name, table, want_behaviours=True, junk=True, **mc)
@@ -240,6 +308,15 @@ def histories(ctx, name, table, nhist, budget, nstd, huge=0, barrage=False, **mc
     jobs = history_jobs(ctx, pool, svcs, nhist, budget, huge=huge)
     if barrage:
         jobs.append(barrage_job(ctx, svcs, len(jobs)))
+    for tb in adjacency:
+        aj = adjacency_job(ctx, R.SERVICE_TABLES[tb], len(jobs), adj_full)
+        jobs.append(aj)
+        fam = ctx.cov.setdefault("adjacency_family", {"tables": [], "deliveries": 0, "by_kind": {}})
+        fam["tables"].append(tb)
+        fam.update(aj["family"])
+        fam["deliveries"] += len(aj["variants"])
+        for v in aj["variants"]:
+            fam["by_kind"][v["fam"]] = fam["by_kind"].get(v["fam"], 0) + 1
     results = BR.run_histories(ctx, jobs, tag=name)
     t3 = time.time()
     findings = BR.validate_all(ctx, results)
@@ -259,7 +336,7 @@ def histories(ctx, name, table, nhist, budget, nstd, huge=0, barrage=False, **mc
     for j in jobs:
         st["junk_lines"] += sum(1 for it in j["items"] if it["junk"])
         for v in j["variants"]:
-            m = v["mode"] + ("+eof" if v.get("trunc") is not None else "")
+            m = v["mode"] + ("+eof" if v.get("trunc") is not None else "") + ("+glue" if v.get("glue") else "")
             st["modes"][m] = st["modes"].get(m, 0) + 1
     ub = sorted({u for x in results for u in x["ubsan"]} | {u for x in res for u in x["ubsan"]})
     if ub:
@@ -471,8 +548,86 @@ def barrage_job(ctx, svcs, rid):
         var.append({"mode": "split", "cuts": sorted(ctx.rng.sample(range(1, total), k))})
     for _ in range(8):
         var.append({"mode": "whole", "trunc": ctx.rng.randrange(total)})
+    var += prompt_variants(ctx, items, 12, kmax=4)
     return {"rid": rid, "svcs": svcs, "items": items, "variants": var}
 
+
+
+def adjacency_job(ctx, svcs, rid, full):
+    """Adjacency family: every junk form x every line kind sent with its MINIMUM number of parameters.
+
+    The history sends, for live clients, every command once with exactly the parameters it needs and no more (bare
+    `u`; N / n / P / u with one; U with two; C, X, E, M, `?`, `!`), and the same commands with a parameter missing
+    (bare N / n / P, U without real name, short E / M / X / `?`: junk lines, expected to be stutters).  A delivery
+    glues ONE junk form in front of ONE of these lines (no barrier line in between) and sends the stream in one write,
+    one write per line group (junk and line in the same chunk) or - for comparison - strictly line by line (junk
+    and line in different chunks); quick tier: every form in front of ALL lines at once, and the isolated
+    (form, line) pairs for the forms that carry parameters for an unknown id; thorough tier: all pairs.
+    Prompt deliveries (chunk of k * 4096 bytes, input kept open) end at every line of the history."""
+    rng = ctx.rng
+    s0 = svcs[0]["name"]
+
+    def raw(text):
+        return {"ev": None, "raw": text, "junk": True, "crlf": False}
+    seq = [{"e": "C", "id": 5, "addr": "A5", "port": 1005}, raw("5 N"), raw("5 n"), raw("5 P"), raw("5 U name"),
+           {"e": "u0", "id": 5}, raw("5 E type"), raw("-1 M some.server"), raw("-1 X %s 5_1" % s0), raw("-1 ?"),
+           {"e": "N", "id": 5, "host": ["h1", 12]}, {"e": "n", "id": 5, "nick": ["n1", 5]},
+           {"e": "U", "id": 5, "user": ["c1", 6], "tilde": 0, "real": ["r1", 11]},
+           raw("5 N"), raw("5 n"), raw("5 P"), {"e": "u0", "id": 5},
+           {"e": "P", "id": 5, "shape": "ok", "modes": ["+", "x"], "cred": ["p1", 10], "raw": ["P+xp1", 0]},
+           {"e": "C", "id": 6, "addr": "A6", "port": 1006}, {"e": "d", "id": 6}, {"e": "u", "id": 6, "ident": ["i1", 4]},
+           {"e": "u0", "id": 6}, {"e": "H", "id": 6}, raw("6 E type :info text"), raw("-1 M some.server 100"), {"e": "QC"}]
+    seq += [{"e": "X", "svc": s["name"], "tag": "6_2", "kind": "OK", "acct": ["ac1", 8], "text": ["t1", 9], "trail": ""} for s in svcs]
+    seq += [{"e": "H", "id": 5}]
+    seq += [{"e": "X", "svc": s["name"], "tag": "5_1", "kind": "OKA", "acct": ["ac1", 8], "text": ["t1", 9], "trail": ""} for s in svcs]
+    seq += [{"e": "TO", "id": 5}, {"e": "TO", "id": 6}, {"e": "C", "id": 7, "addr": "A7", "port": 1007}, {"e": "u0", "id": 7},
+            {"e": "T", "id": 7}, {"e": "D", "id": 5}, {"e": "D", "id": 6}, {"e": "D", "id": 7}]
+    items = [x if "ev" in x else {"ev": x, "raw": None, "junk": False, "crlf": False} for x in seq]
+    jc = junk_context(items)
+    targets = list(range(len(items)))
+
+    def fixed_forms(i, tag):
+        return junk_forms(i, tag, rng)[:-2]              # (the last two have a random length)
+
+    def form(k, fi):
+        f = fixed_forms(jc[k][0], jc[k][1])[fi]
+        return [k, f, ("\r" not in f) and rng.random() < 0.25]
+    # forms that carry parameters for an unknown client id (what a late line for a departed client looks like)
+    ref_forms = fixed_forms(5, "5_1")
+    nforms = len(ref_forms)
+    with_args = [fi for fi, f in enumerate(ref_forms)
+                 if f[:1] != " " and f.split()[:1] and f.split()[0].lstrip("-").isdigit() and int(f.split()[0]) not in (-1, 5)
+                 and len(f.split()) >= 3]
+    # lines whose handler reads a parameter slot without (or beyond) what argc vouches for: bare u and the lines with a
+    # parameter missing
+    def is_short(it):
+        return (it["ev"] or {}).get("e") == "u0" or (it["raw"] is not None and len(it["raw"].split()) <= 3 and ":" not in it["raw"])
+    short = [k for k in targets if is_short(items[k])]
+    var = []
+    for fi in range(nforms):
+        for mode in ("whole", "lines", "sep") + (("bytes",) if full else ()):
+            var.append({"mode": mode, "glue": [form(k, fi) for k in targets], "fam": "adj-all"})
+    for fi in (range(nforms) if full else with_args):
+        for k in (targets if full else short):
+            g = [form(k, fi)]
+            var.append({"mode": "lines", "glue": g, "fam": "adj"})
+            if full:
+                var.append({"mode": "whole", "glue": g, "fam": "adj"})
+                var.append({"mode": "sep", "glue": g, "fam": "adj"})
+    # two different forms in a row in front of a line
+    for _ in range(400 if full else 40):
+        k = rng.choice(targets)
+        var.append({"mode": rng.choice(["whole", "lines"]), "fam": "adj2",
+                    "glue": [form(k, rng.choice(with_args)), form(k, rng.randrange(nforms))][::rng.choice([1, -1])]})
+    # prompt deliveries ending at every line, chunk from up to 3 lines before; k = 1 .. 4 (thorough: .. 16), every padding style
+    for p_ in targets:
+        for n, kk in enumerate([1 + p_ % 4] if not full else [1, 2, 3, 4, 8, 16]):
+            q_ = max(0, p_ - (p_ + n) % 4)
+            var.append({"mode": "prompt", "q": q_, "p": p_, "k": kk, "fam": "adj-prompt",
+                        "style": PAD_STYLES[(p_ + n) % len(PAD_STYLES)], "uid": 1000 + jc[q_][0]})
+    return {"rid": rid, "svcs": svcs, "items": items, "variants": var,
+            "family": {"forms": nforms, "forms_with_args_for_unknown_id": len(with_args), "lines": len(targets),
+                       "lines_reading_an_absent_parameter": len(short)}}
 
 
 def add_counters(ctx, results):
@@ -490,7 +645,16 @@ MC_CONFIGS = {
     "t2": ("MCReadLine_t2.cfg", 8, "alphabet {5 SP : LF CR NUL N - 1 TAB}, streams <= 5 bytes, ARGV = 2"),
     "t3": ("MCReadLine_t3.cfg", 8, "alphabet {a SP : LF}, streams <= 8 bytes, ARGV = 3"),
     "t4": ("MCReadLine_t4.cfg", 8, "alphabet {5 SP : LF CR NUL N}, streams <= 7 bytes, ARGV = 2"),
+    "a": ("MCReadLine_a.cfg", 4, "alphabet {5 N SP LF}, LF-terminated streams <= 7 bytes, ARGV = 2, only id 0 live (unknown-id path with parameters reachable)"),
+    "c2": ("MCReadLine_c2.cfg", 2, "alphabet {5 SP : LF CR NUL N}, streams <= 4 bytes, reads of at most 2 bytes (full reads followed by more)"),
+    "a8": ("MCReadLine_a8.cfg", 8, "alphabet {5 N SP LF}, LF-terminated streams <= 8 bytes, ARGV = 2, only id 0 live"),
+    "c3": ("MCReadLine_c3.cfg", 8, "alphabet {5 SP : LF CR NUL N}, streams <= 6 bytes, reads of at most 3 bytes"),
 }
+# model mutants that must be refuted (anti-vacuity of the two invariants the glue / prompt deliveries bind to the code)
+MC_MUTANTS = [("MCReadLine_bug_drainfull.cfg", "NoLineWaiting",
+               "Bug drainfull: a read that fills the buffer is followed by another read() before anything is parsed"),
+              ("MCReadLine_bug_argvstale.cfg", "AbsentParamIsNull",
+               "Bug argvstale: argv[] zeroed once, no argv[argc] = NULL store, slots reset only at the bottom of the loop")]
 
 
 def model_check_input_layer(ctx, names):
@@ -506,6 +670,16 @@ def model_check_input_layer(ctx, names):
     return out
 
 
+def refute_model_mutants(ctx):
+    out = []
+    for cfg, inv, what in MC_MUTANTS:
+        r = ctx.tlc("MCReadLine", cfg, workers=2, timeout=600, heap="3g")
+        if r.violated != inv:
+            raise MachineryError("model mutant %s: expected TLC to refute %s, got %r: the invariant is vacuous" % (cfg, inv, r.violated))
+        out.append((cfg, inv, what, r))
+    return out
+
+
 def run(ctx):
     ctx.cov["rule"] = (
         "model: every byte stream over the stated alphabets up to the stated length, every segmentation into read() chunks, end "
@@ -517,13 +691,24 @@ def run(ctx):
         "stream with LF / CR LF terminators, delivered line-at-a-time, in one write, in every 2-chunk split (2 histories) and "
         "sampled 2-/k-chunk splits incl. before/after every LF, between CR and LF, inside ids and routing tags, byte by byte, and "
         "ended at every byte (2 histories) / sampled bytes; each delivery on a fresh process is compared step by step with the "
-        "clean line-at-a-time run of the history without junk; (b) byte level: every string up to length 3 (thorough 4) over "
+        "clean line-at-a-time run of the history without junk; glue deliveries: junk lines written directly in front of a line with no "
+        "barrier line in between (same read() chunk, same call of iauth_read()): random ones on every model history, and the "
+        "adjacency family = a history that sends every command with exactly its minimum number of parameters (bare u; N n P u "
+        "with one; U; C; X; E; M; ?; !) and with a parameter missing, x every junk form (in front of all lines at once; isolated "
+        "(form, line) pairs for the forms carrying parameters for an unknown id, thorough: all pairs), in one write / one write "
+        "per line group / strictly line by line; prompt deliveries: a chunk of exactly k * 4096 bytes (k = 1..4, thorough ..16; "
+        "padded with unknown-id lines, over-long lines, empty lines) ending in a barrier line, input kept open, nothing more "
+        "written until the barrier is answered (time-out 5 s) - ReadLine!NoLineWaiting on the real daemon; (b) byte level: every string up to length 3 (thorough 4) over "
         "{5 - 1 SP : LF CR NUL U N z 0xE9} as a line on its own, to a live client, and behind 8 line prefixes, mutations of 21 "
         "valid lines (delete / cut / replace / insert incl. NUL, CR, LF, 0x80, 0xff; drop parameter; 10-30 arguments; lengths "
         "510..8193 and 70000), each followed by probes (the addressed client is driven to its verdict, then a fresh client runs "
         "a complete registration) compared with a fresh daemon's. distinct_nontrivial = distinct byte streams x deliveries + "
         "distinct byte-level subjects")
     ctx.assumptions += [
+        "promptness is observed with a time-out (5 s for an answer the unchanged daemon gives within milliseconds; a late answer "
+        "is reported only if it is late again on a fresh process)",
+        "a junk line glued in front of a well-formed line may print oper notices of its own: for such a step the outputs are compared "
+        "without oper notices",
         "read() boundaries are controlled by writing a chunk only after the daemon's stdin pipe is empty (FIONREAD); chunks above "
         "4096 bytes are cut further by the daemon's own read size",
         "memory safety, hangs and clean exit are observed on the sanitizer build (ASan/LSan abort = step not completed, "
@@ -535,32 +720,35 @@ def run(ctx):
         "the request timeout fires only where the '<id> ! timeout' hook is sent (timeout 1h configured)"]
     quick = ctx.tier == "quick"
     # the exhaustive model runs go on beside the replay
-    pool = ThreadPoolExecutor(1)
-    fut = pool.submit(model_check_input_layer, ctx, ["q", "w"] if quick else ["t4", "t2", "t3"])
+    pool = ThreadPoolExecutor(3)
+    futs = [pool.submit(model_check_input_layer, ctx, ["q", "c2"] if quick else ["t4", "c3"]),
+            pool.submit(model_check_input_layer, ctx, ["w", "a"] if quick else ["t2", "t3", "a8"])]
+    fut_mut = pool.submit(refute_model_mutants, ctx)
     distinct = 0
     if quick:
-        jobs = histories(ctx, "hq", "S_t1d", nhist=100, nstd=250, huge=1, barrage=True,
+        jobs = histories(ctx, "hq", "S_t1d", nhist=100, nstd=250, huge=1, barrage=True, adjacency=["S_t1d"],
                          budget={"full_for": 2, "all2": True, "alltrunc": True, "bytes": True, "n2": 5, "special": 8, "nk": 3,
-                                 "ntrunc": 5, "strunc": 6},
+                                 "ntrunc": 5, "strunc": 6, "nglue": 1, "nprompt": 2},
                          max_inst=1, max_pw=1, emit_mod=20)
         jobs += histories(ctx, "hq1", "S_q1", nhist=40, nstd=150,
-                          budget={"full_for": 0, "bytes": True, "n2": 4, "special": 6, "nk": 3, "ntrunc": 4, "strunc": 5},
+                          budget={"full_for": 0, "bytes": True, "n2": 4, "special": 6, "nk": 3, "ntrunc": 4, "strunc": 5,
+                                  "nglue": 1, "nprompt": 2},
                           max_inst=1, max_pw=1, emit_mod=40)
         ncases = byte_level(ctx, enumerated_cases(3, 2), "enum")
         ncases += byte_level(ctx, mutation_cases(ctx.rng, 4000), "mut")
         ncases += byte_level(ctx, mutation_cases(ctx.rng, 1200), "mutc", with_class=True)
     else:
-        jobs = histories(ctx, "ht", "S_t1d", nhist=450, nstd=3000, huge=3, barrage=True,
+        jobs = histories(ctx, "ht", "S_t1d", nhist=450, nstd=3000, huge=3, barrage=True, adjacency=["S_t1d", "S_t1b"], adj_full=True,
                          budget={"huge_bytes": True, "full_for": 11, "all2": True, "alltrunc": True, "bytes": True, "n2": 12, "special": 25, "nk": 8,
-                                 "ntrunc": 12, "strunc": 14},
+                                 "ntrunc": 12, "strunc": 14, "nglue": 4, "nprompt": 6, "kmax": 8},
                          max_inst=2, max_pw=1, emit_mod=8)
-        jobs += histories(ctx, "ht1", "S_q1", nhist=220, nstd=2000, huge=1, barrage=True,
+        jobs += histories(ctx, "ht1", "S_q1", nhist=220, nstd=2000, huge=1, barrage=True, adjacency=["S_q1"], adj_full=True,
                           budget={"full_for": 4, "all2": True, "alltrunc": True, "bytes": True, "n2": 10, "special": 20, "nk": 6,
-                                  "ntrunc": 10, "strunc": 12},
+                                  "ntrunc": 10, "strunc": 12, "nglue": 4, "nprompt": 6, "kmax": 8},
                           max_inst=1, max_pw=2, emit_mod=30)
         jobs += histories(ctx, "ht2", "S_t1c", nhist=120, nstd=1000,
                           budget={"full_for": 1, "all2": True, "alltrunc": True, "bytes": True, "n2": 10, "special": 20, "nk": 6,
-                                  "ntrunc": 10, "strunc": 12},
+                                  "ntrunc": 10, "strunc": 12, "nglue": 4, "nprompt": 6, "kmax": 8},
                           max_inst=1, max_pw=1, emit_mod=10)
         ncases = byte_level(ctx, enumerated_cases(4, 3), "enum")
         ncases += byte_level(ctx, mutation_cases(ctx.rng, None), "mut")
@@ -572,14 +760,20 @@ def run(ctx):
         for v in j["variants"]:
             seen.add((key, json.dumps(v, sort_keys=True)))
     ctx.cov["distinct_nontrivial"] = len(seen) + ncases
-    for n, what, r in fut.result():
-        ctx.model_checked(r)
-        ctx.note("input-layer model %s (%s): %d distinct states, %d transitions, %.0fs: B refines A" % (n, what, r.distinct, r.generated, r.wall_s))
+    for fut in futs:
+        for n, what, r in fut.result():
+            ctx.model_checked(r)
+            ctx.note("input-layer model %s (%s): %d distinct states, %d transitions, %.0fs: B refines A" % (n, what, r.distinct, r.generated, r.wall_s))
+    ctx.cov["model_mutants_refuted"] = []
+    for cfg, inv, what, r in fut_mut.result():
+        ctx.cov["model_mutants_refuted"].append({"cfg": cfg, "invariant": inv, "what": what})
+        ctx.note("model mutant %s: TLC refutes %s (%s)" % (cfg, inv, what))
     pool.shutdown()
     ctx.cov["exhaustive"] = False
     # anti-vacuity: every part of the oracle must have been exercised
     oc = ctx.cov.get("oracle_counters", {})
-    for k in ("steps", "junksteps", "notices", "cut", "tailalt", "tailjunk", "tailpart", "cases", "junkcases", "predcases", "prednotices", "ends"):
+    for k in ("steps", "junksteps", "notices", "cut", "tailalt", "tailjunk", "tailpart", "cases", "junkcases", "predcases", "prednotices", "ends",
+              "prompts", "promptk", "glued", "gluedjunk"):
         if not oc.get(k) and not ctx.violations:
             raise MachineryError("vacuous run: oracle counter %s is zero (%r)" % (k, oc))
 
